@@ -15,16 +15,17 @@ Theorem C12_every_request_answered_once :
   = flat_map (request_id text) ms.
 Proof. exact run_replies. Qed.
 
-(* a request gets an error reply exactly when its method is not implemented (MethodNotFound) *)
+(* a request gets an error reply exactly when its method is not implemented (MethodNotFound) or its
+   parameters do not have the shape of its method (InvalidParams) *)
 Theorem C12_error_iff_unimplemented :
   forall (text D T : Type) diag no_diag tokens null_tokens (d : docs text) (m : msg text) id c,
   In (ErrorReply D T id c) (snd (step text D T diag no_diag tokens null_tokens d m))
-  <-> m = OtherRequest text id /\ c = method_not_found.
+  <-> (m = OtherRequest text id /\ c = method_not_found) \/ (m = BadParams text id /\ c = invalid_params).
 Proof. exact step_error_iff. Qed.
 
 Example C12_example :
-  let ms := [DidOpen nat (mkUri 1 true) 1%Z 7%nat; OtherRequest nat 5; Response nat 9; SemTokens nat 6 (mkUri 1 true);
+  let ms := [DidOpen nat (mkUri 1 true) 1%Z 7%nat; OtherRequest nat 5; Response nat 9; SemTokens nat 6 (mkUri 1 true); DidClose nat (mkUri 1 true); BadParams nat 7;
              DidChange nat (mkUri 1 true) 2%Z []; OtherNotification nat] in
   flat_map (reply_id unit bool) (snd (run nat unit bool (fun _ _ => tt) tt (fun o => match o with Some _ => true | None => false end) false [] ms))
-  = [5%N; 6%N].
+  = [5%N; 6%N; 7%N].
 Proof. vm_compute. reflexivity. Qed.
